@@ -7,6 +7,9 @@ serializer by the correspondence op `ser.object` (no theorems about it).
 
 Rules (xsdata documentation, "Data Models"):
 * class element: local name `Meta.name` or the class name, namespace `Meta.namespace`;
+  `Meta` is NOT inherited (a subclass without a Meta of its own is named after the class and has no
+  namespace of its own, also below a base whose Meta sets one; the base's fields come first; an
+  element field declared in a base with a Meta of its own defaults to the namespace that Meta sets);
   a class without `Meta.namespace` inherits the namespace of the enclosing instance's class
   (`meta.namespace`, what the parser hands down; since repair c01g-01 the serializer does the same —
   before it handed down the namespace of the enclosing instance's *element name*);
@@ -28,6 +31,7 @@ mutual
   /-- description of a binding class -/
   inductive ModelD
     | mk (cls : Str) (metaName : Option Str) (hasNs : Bool) (ns : Option Str) (fields : List FieldD)
+        (ownMeta : Bool) (base : Option ModelD)
   /-- description of a field -/
   inductive FieldD
     | attr (name : Str) (loc : Option Str) (ns : Option Str)
@@ -63,25 +67,43 @@ def withNil (nil : Bool) : Node → Node
 
 /-- the instance has a text field with a value (even an empty string counts as content) -/
 def textPresent : ModelD → List (Str × IV) → Bool
-  | .mk _ _ _ _ fields, inst => fields.any fun f =>
+  | .mk _ _ _ _ fields _ _, inst => fields.any fun f =>
     match f with
     | .text fname => (match lookupField inst fname with | .str _ => true | _ => false)
     | _ => false
 
+/-- `Meta` is not inherited: only a Meta of the class itself names it and gives it a namespace -/
+def ownNs : ModelD → Option (Option Str)
+  | .mk _ _ hasNs ns _ ownMeta _ => if ownMeta && hasNs then some (optNonEmpty ns) else none
+
+/-- the fields a class inherits, in dataclass order (the base's bases first), each with the namespace
+its element defaults to when the Meta of the DECLARING class sets one (`none`: the namespace of the
+class of the instance) -/
+def inheritedFields : Nat → ModelD → List (FieldD × Option (Option Str))
+  | 0, _ => []
+  | fuel + 1, .mk _ _ _ _ _ _ base =>
+    match base with
+    | none => []
+    | some b =>
+      match b with
+      | .mk _ _ _ _ bfields _ _ => inheritedFields fuel b ++ bfields.map (fun f => (f, ownNs b))
+
 /-- element `name` holding instance `inst` of model `m`; `fuel` bounds the nesting depth -/
 def specElem : Nat → ModelD → List (Str × IV) → EName → Option Str → Node
   | 0, _, _, name, _ => .elem name [] []
-  | fuel + 1, .mk _ _ hasNs ns fields, inst, name, parentNs =>
-    let cns : Option Str := if hasNs then optNonEmpty ns else parentNs
-    let attrs : List (EName × Str) := fields.filterMap fun f =>
-      match f with
+  | fuel + 1, .mk c mn hasNs ns ownFields ownMeta base, inst, name, parentNs =>
+    let cns : Option Str := if ownMeta && hasNs then optNonEmpty ns else parentNs
+    let fields : List (FieldD × Option (Option Str)) :=
+      inheritedFields 8 (.mk c mn hasNs ns ownFields ownMeta base) ++ ownFields.map (fun f => (f, none))
+    let attrs : List (EName × Str) := fields.filterMap fun fd =>
+      match fd.1 with
       | .attr fname loc ans =>
         match lookupField inst fname with
         | .str v => some ((optNonEmpty ans, loc.getD fname), v)
         | _ => none
       | _ => none
-    let kids : List Node := fields.flatMap fun f =>
-      match f with
+    let kids : List Node := fields.flatMap fun fd =>
+      match fd.1 with
       | .attr _ _ _ => []
       | .text fname =>
         match lookupField inst fname with
@@ -89,7 +111,7 @@ def specElem : Nat → ModelD → List (Str × IV) → EName → Option Str → 
         | _ => []
       | .elem fname loc fns isList nillable wrapper typ =>
         let ens : Option Str := match fns with
-          | none => cns
+          | none => (match fd.2 with | some d => d | none => cns)
           | some u => optNonEmpty (some u)
         let local_ := loc.getD fname
         let one (x : IV) : List Node :=
@@ -112,8 +134,8 @@ def specElem : Nat → ModelD → List (Str × IV) → EName → Option Str → 
 /-- the document element prescribed for a root instance -/
 def specRoot (fuel : Nat) (m : ModelD) (inst : List (Str × IV)) : Node :=
   match m with
-  | .mk cls metaName hasNs ns _ =>
-    let rns : Option Str := if hasNs then optNonEmpty ns else none
-    specElem fuel m inst (rns, metaName.getD cls) rns
+  | .mk cls metaName hasNs ns _ ownMeta _ =>
+    let rns : Option Str := if ownMeta && hasNs then optNonEmpty ns else none
+    specElem fuel m inst (rns, if ownMeta then metaName.getD cls else cls) rns
 
 end Spec.ObjectTree
